@@ -208,6 +208,7 @@ def part_c(ctx, I, budget):
         classes = sorted(set(y_train))
         y_test = [rng.choice(classes) for _ in range(m)]
         dist = np.array(gen.tied_distances(rng, n_rows, m) if ties else gen.distinct_distances(rng, n_rows, m), dtype=float)
+        dkind = kern.extend_distances(rng, dist, ties) if mode != "edited" else "plain"      # (edited mode may leave units without rows: they sit at infinity themselves)
         ukind = rng.choice(["accuracy", "custom"])
         X = np.arange(n_rows, dtype=float).reshape(-1, 1)
         Xv = np.arange(m, dtype=float).reshape(-1, 1)
@@ -278,7 +279,7 @@ def part_c(ctx, I, budget):
         if ords is not None and ties:
             req["orders"] = ords
         ans = ctx.model(req)
-        ctx.case(case, nontrivial=(n_units >= 2 and len(classes) >= 2), sample=case, part="c", mode=mode, ties=ties, util=ukind, small_batch_constant=small_B)
+        ctx.case(case, nontrivial=(n_units >= 2 and len(classes) >= 2), sample=case, part="c", mode=mode, ties=ties, util=ukind, small_batch_constant=small_B, distances=dkind)
         ctx.maxi(units=n_units, rows=n_rows)
         # by definition (distinct distances, or the recorded order when tied)
         spec_val = None
